@@ -132,7 +132,7 @@ class Cfg:
         if self.start is not None:
             a += ["-i", self.start[0]]
             if self.start[1] is not None:
-                a += ["--InitialDistStep", self.start[1]]
+                a += ["--InitialDistStep=%d" % self.start[1]]
         return a + list(self.extra)
 
     def replay(self):
